@@ -149,6 +149,9 @@ Definition i_max_k (i : infos) : Z := i_size i * i_base2k i.
 (* usize::div_ceil *)
 Definition div_ceil (a b : Z) : Z := (a + b - 1) / b.
 
+(* usize::next_multiple_of *)
+Definition next_multiple_of (a b : Z) : Z := (a + b - 1) / b * b.
+
 (* GLWELayout { n, base2k, k, rank }: size() = k.div_ceil(base2k) *)
 Definition mk_glwe_layout (n base2k k rank : Z) : infos :=
   mkInfos n base2k (div_ceil k base2k) rank rank 0 1.
